@@ -139,6 +139,16 @@ NOTES = {
  'C08g': ('missed', 'Stop after the creator\'s context was cancelled, and two concurrent Stops, judged by the C08 cleanup oracle (the configurations existed under C04 only)'),
  'C09g': ('detected', ''),
  'C10g': ('missed', 'a non-column struct field before the filtered columns (struct index differs from column order)'),
+ 'C11g': ('missed', 'one paginated selection resolved for several lists: several parent objects with lists of different lengths, and one prepared query executed again after the list changed'),
+ 'C12g': ('missed', 'one *SelectOptions value used for two calls with different filters (a rejected call followed by a retry; options first used for another shard)'),
+ 'C13g': ('missed', 'a self-serialising non-pointer column whose NULL form is not its zero value'),
+ 'C14g': ('missed', 'a scheduled harness: a request cancelled at any moment of an execution under a rerunner over a list holding one object twice (the second Expensive unit waits for the first one\'s cache entry)'),
+ 'C15g': ('detected', ''),
+ 'C16g': ('missed', 'lists handed over by value (non-comparable structs) and, for Expensive mode sets, execution inside a reactive rerunner in the failing-resolver enumeration'),
+ 'C17g': ('detected', ''),
+ 'C18g': ('missed', 'a required input object whose own fields are all optional: alone, as a field of another input object, as a list element'),
+ 'C19g': ('missed', 'one leaf in both copies of a repeated parent field, with its own directives in each copy (gateway and single server)'),
+ 'C20g': ('detected', ''),
 }
 rows = []
 for name in sorted(os.listdir(ROOT)):
